@@ -58,6 +58,7 @@ const (
 	LockupBlocks   = 3 // DepositLockupBlocks
 	MinDepositSela = 5000 * 100000000
 	V2Votes        = 200     // DPoS v2 votes cast per vote transaction (above DPoSV2EffectiveVotes = 100)
+	ClaimAmount    = 300     // DPoS v2 reward claimed per claim transaction
 	V2VotesLow     = 99      // one below the threshold; v2one adds a single vote
 	V2Lock         = 7200    // lock duration of a DPoS v2 vote (weight log10(7200/720) = 1)
 	V2StakeUntil   = 1000000 // StakeUntil of producers upgraded to DPoS v1+v2
@@ -150,6 +151,11 @@ type Inst struct {
 	// deposit outpoints of each producer (unspent)
 	deposits [][]*common2.OutPoint
 	seq      uint32
+	// two-transaction blocks: while batching, Process collects transactions instead of
+	// building the block
+	batching bool
+	batch    []interfaces.Transaction
+	batchOff uint32
 }
 
 // NewInst builds a fresh instance at height 0 (nothing processed).
@@ -428,6 +434,40 @@ func (in *Inst) TxIllegalBlocks(h uint32, arb []*Key) interfaces.Transaction {
 		[]*common2.Attribute{}, []*common2.Input{}, []*common2.Output{}, 0, []*program.Program{})
 }
 
+// rewardAddr is the address under which DPoS v2 rewards of voter v are booked.
+func (in *Inst) rewardAddr(v int) string {
+	h := in.W.Voter[v].StakeHash()
+	a, err := h.ToAddress()
+	if err != nil {
+		panic(err)
+	}
+	return a
+}
+
+// TxClaimReward: voter v claims amount of its accumulated DPoS v2 reward.
+func (in *Inst) TxClaimReward(h uint32, v int, amount common.Fixed64) interfaces.Transaction {
+	pl := &payload.DPoSV2ClaimReward{ToAddr: in.W.Voter[v].ProgramHash(), Code: in.W.Voter[v].Code(), Value: amount}
+	pl.Signature = in.W.signOnce(in.W.Voter[v], pl.Data(payload.DposV2ClaimRewardVersionV0))
+	return functions.CreateTransaction(common2.TxVersion09, common2.DposV2ClaimReward, payload.DposV2ClaimRewardVersionV0, pl,
+		in.nonce(h), []*common2.Input{}, []*common2.Output{}, 0, []*program.Program{})
+}
+
+// TxRealWithdraw: the node-generated transaction paying out every pending claim.
+func (in *Inst) TxRealWithdraw(h uint32) interfaces.Transaction {
+	var hashes []common.Uint256
+	for k := range in.A.WithdrawableTxInfo {
+		hashes = append(hashes, k)
+	}
+	sort.Slice(hashes, func(a, b int) bool { return hashes[a].Compare(hashes[b]) < 0 })
+	var outs []*common2.Output
+	for _, k := range hashes {
+		info := in.A.WithdrawableTxInfo[k]
+		outs = append(outs, &common2.Output{Value: info.Amount, ProgramHash: info.Recipient, Type: common2.OTNone, Payload: &outputpayload.DefaultOutput{}})
+	}
+	return functions.CreateTransaction(common2.TxVersion09, common2.DposV2ClaimRewardRealWithdraw, 0,
+		&payload.DposV2ClaimRewardRealWithdraw{WithdrawTransactionHashes: hashes}, []*common2.Attribute{}, []*common2.Input{}, outs, 0, []*program.Program{})
+}
+
 func (in *Inst) TxRevertToPOW(h uint32) interfaces.Transaction {
 	return functions.CreateTransaction(common2.TxVersion09, common2.RevertToPOW, payload.RevertToPOWVersion,
 		&payload.RevertToPOW{Type: payload.NoBlock, WorkingHeight: h}, []*common2.Attribute{}, []*common2.Input{}, []*common2.Output{}, 0, []*program.Program{})
@@ -476,6 +516,13 @@ func (in *Inst) sponsorOf(offset uint32) []byte {
 // ProcessSponsored is Process with the confirmation sponsored by the arbiter `offset` positions
 // after the on-duty one (offset>0: the on-duty arbiter missed its turn, a view change happened).
 func (in *Inst) ProcessSponsored(offset uint32, txs ...interfaces.Transaction) {
+	if in.batching {
+		in.batch = append(in.batch, txs...)
+		if offset > in.batchOff {
+			in.batchOff = offset
+		}
+		return
+	}
 	h := in.Height + 1
 	sponsor := in.sponsorOf(offset)
 	var prev common.Uint256
@@ -701,6 +748,24 @@ func (in *Inst) OpsFor(only []int) []string {
 			}
 		}
 	}
+	// DPoS v2 reward claims (balances seeded by the warm-up op "seedreward") and the
+	// node-generated real-withdraw transaction that pays pending claims out
+	if h >= HDPoSV2Start {
+		for v := 0; v < NVoters; v++ {
+			if in.A.DPoSV2RewardInfo[in.rewardAddr(v)] >= ClaimAmount {
+				ops = append(ops, fmt.Sprintf("claim:%d", v))
+			}
+		}
+		if len(in.A.WithdrawableTxInfo) > 0 {
+			ops = append(ops, "realwd")
+			for v := 0; v < NVoters; v++ {
+				if in.A.DPoSV2RewardInfo[in.rewardAddr(v)] >= ClaimAmount {
+					// one block: a new claim followed by the pay-out of the earlier ones
+					ops = append(ops, fmt.Sprintf("claim:%d+realwd", v), fmt.Sprintf("realwd+claim:%d", v))
+				}
+			}
+		}
+	}
 	// evidence against a current arbiter that is an active or inactive producer
 	if h >= HPublicDPOS && !pow {
 		for i := 0; i < NProducers; i++ {
@@ -740,6 +805,17 @@ func (in *Inst) OpsFor(only []int) []string {
 
 // Apply builds and processes the block of op.
 func (in *Inst) Apply(op string) {
+	if a, b, two := strings.Cut(op, "+"); two {
+		// two-transaction block: both transactions are built against the pre-block state
+		in.batching, in.batch, in.batchOff = true, nil, 0
+		in.Apply(a)
+		in.Apply(b)
+		in.batching = false
+		txs, off := in.batch, in.batchOff
+		in.batch = nil
+		in.ProcessSponsored(off, txs...)
+		return
+	}
 	h := in.Height + 1
 	kind, arg, _ := strings.Cut(op, ":")
 	atoi := func(s string) int { n, _ := strconv.Atoi(s); return n }
@@ -809,6 +885,18 @@ func (in *Inst) Apply(op string) {
 	case "illegal":
 		p := in.prod(atoi(arg))
 		in.Process(in.TxIllegalProposal(h, in.nodeKey(p.NodePublicKey())))
+	case "seedreward":
+		// stands for the reward bookkeeping of a running DPoS v2 round (accumulateReward credits
+		// DPoSV2RewardInfo per voter address); the harness cannot elect a v2 arbiter set with four
+		// producers, so the balances are written directly, in the warm-up only
+		in.Process()
+		for v := 0; v < NVoters; v++ {
+			in.A.DPoSV2RewardInfo[in.rewardAddr(v)] = 1000
+		}
+	case "claim":
+		in.Process(in.TxClaimReward(h, atoi(arg), ClaimAmount))
+	case "realwd":
+		in.Process(in.TxRealWithdraw(h))
 	case "illblk":
 		in.Process(in.TxIllegalBlocks(h, in.arbiterKeys()))
 	case "illblkseat":
